@@ -32,7 +32,32 @@ func Dominates(a, b ssa.Instruction) bool {
 	if a.Block() == b.Block() {
 		return InstrIndex(a) < InstrIndex(b)
 	}
-	return a.Block().Dominates(b.Block())
+	return BlockDominates(a.Block(), b.Block())
+}
+
+var domCache = map[[2]*ssa.BasicBlock]bool{}
+
+// BlockDominates reports whether every FEASIBLE path from the entry to block b
+// passes through block a. It extends go/ssa's dominator relation by the paths
+// thread.go knows to be infeasible (e.g. the fall-through of
+// `err = ErrX; if err != nil { return err }` left behind by helper expansion).
+func BlockDominates(a, b *ssa.BasicBlock) bool {
+	if a == nil || b == nil || a.Parent() != b.Parent() {
+		return false
+	}
+	if a == b || a.Dominates(b) {
+		return true
+	}
+	k := [2]*ssa.BasicBlock{a, b}
+	if v, ok := domCache[k]; ok {
+		return v
+	}
+	fn := a.Parent()
+	r := reachBlocks(fn, fn.Blocks[0], map[int]bool{a.Index: true}, nil)
+	live := LiveBlocks(fn)
+	v := !r[b.Index] && live[b.Index]
+	domCache[k] = v
+	return v
 }
 
 // Edge identifies a CFG edge by block indices.
@@ -598,4 +623,65 @@ func (g Guard) Equality() (eq bool, ok bool) {
 		return truth, true
 	}
 	return !truth, true
+}
+
+// Forward resolves a value that merely passes through memory the function owns:
+// a load of field f of a locally allocated struct (new / composite literal) for
+// which exactly one store to that field exists in the function, that store
+// dominates the load, and the struct does not escape before the load (it is
+// not passed to a call, stored, or captured on any path to the load). The
+// stored value is returned (recursively); any other value is returned as is.
+// Rules that ask "is this the parameter itself" use it so that
+// `p := &T{N: n}; … p.N` still counts as n.
+func Forward(v ssa.Value) ssa.Value {
+	for i := 0; i < 4; i++ {
+		ld, ok := v.(*ssa.UnOp)
+		if !ok || ld.Op != token.MUL {
+			return v
+		}
+		fa, ok := ld.X.(*ssa.FieldAddr)
+		if !ok {
+			return v
+		}
+		a, ok := fa.X.(*ssa.Alloc)
+		if !ok || a.Referrers() == nil {
+			return v
+		}
+		var store *ssa.Store
+		n := 0
+		escapes := false
+		for _, ref := range *a.Referrers() {
+			switch x := ref.(type) {
+			case *ssa.FieldAddr:
+				for _, u := range *x.Referrers() {
+					switch y := u.(type) {
+					case *ssa.Store:
+						if y.Addr == ssa.Value(x) && x.Field == fa.Field {
+							n++
+							store = y
+						}
+					case *ssa.UnOp:
+					default:
+						// the field's address is taken for something else
+						if x.Field == fa.Field {
+							escapes = true
+						}
+					}
+				}
+			case ssa.Instruction:
+				// any other use of the struct pointer (call argument, store, closure
+				// binding, interface conversion) before the load lets it escape
+				if in, ok := ref.(ssa.Instruction); ok {
+					if in.Block() == ld.Block() && InstrIndex(in) < InstrIndex(ld) || in.Block() != ld.Block() && Reaches(in, ld) {
+						escapes = true
+					}
+				}
+			}
+		}
+		if n != 1 || escapes || store == nil || !Dominates(store, ld) {
+			return v
+		}
+		v = store.Val
+	}
+	return v
 }
